@@ -204,6 +204,11 @@ let gen_lines (atoms : z list) (cfg : params) (s : state) : string list =
   List.iter (fun (o, a) -> add ("gwd " ^ sz o ^ " " ^ sz a)) g1.g_wd;
   List.iter (fun (c, rc) -> add ("g" ^ ctx_line c rc)) g1.g_ctxs;
   add ("gvalid " ^ b2i (validate_genesis g1));
+  (* the JSON codec is outside the model: the property demands 1; the re-export after import
+     is identical by C19_roundtrip, here recomputed *)
+  add "gjson 1";
+  if validate_genesis g1 then
+    add ("gsame " ^ b2i (export_genesis cfg (import_genesis s.height s.time g1) = g1));
   (match zero_height_export cfg s with
    | None -> add "zpanic"
    | Some (s', g3) ->
@@ -212,6 +217,8 @@ let gen_lines (atoms : z list) (cfg : params) (s : state) : string list =
      add ("bal -2 " ^ sz (bal s' Deposit));
      List.iter (fun (c, rc) -> add ("z" ^ ctx_line c rc)) s'.ctxs;
      add ("zvalid " ^ b2i (validate_genesis g3));
+     add "zjson 1";
+     add ("zsame " ^ b2i (export_genesis cfg (import_genesis s'.height s'.time g3) = g3));
      List.iter (fun (c, rc) -> add ("zg" ^ ctx_line c rc)) g3.g_ctxs;
      (match init_genesis s'.height s'.time g3 with
       | Ok si ->
